@@ -302,6 +302,10 @@ impl Header {
         if !flags_ok {
             return Err(Error::InvalidHeader.into());
         }
+        // These packets have neither variable header nor payload
+        if remaining_len != 0 && matches!(typ, PacketType::Pingreq | PacketType::Pingresp) {
+            return Err(Error::InvalidHeader.into());
+        }
         Ok(Header {
             typ,
             dup: false,
